@@ -60,6 +60,7 @@ package state
 //@     && unbox(top(self.db.journal), "state.balanceChange").prev != old(self.data.Balance)
 //@     && unbox(top(self.db.journal), "state.balanceChange").account == addr(self.address)
 //@   ensures[C09] @value self.data.Balance == amount
+//@   ensures[C05,C09] @bigkept big(amount) == old(big(amount))
 //@   nopanic[C09]
 
 // A credit or debit stores a freshly allocated integer holding old balance +/- amount: the
